@@ -8,14 +8,14 @@ import subprocess
 from vmon import common, gen, refmodel, runner, vutil
 
 RULE = ("sequential specification = the same request on a freshly built dataset. EXHAUSTIVE: every sequence of length 1-3 "
-        "over a menu of 14 requests (single/multi field, All/No/time/leadtime/location/month axes, inputs 0/1) = 2954 "
+        "over a menu of 16 requests (single/multi field, All/No/time/leadtime/location/month axes, inputs 0/1) = 4368 "
         "histories per dataset, on datasets with partially missing data incl. obs-range and climatology variants; random "
         "histories of length 4-30 incl. repeated requests. After every call: (1) the result equals the fresh-dataset "
         "result, (2) every array handed out earlier still has its original content (ledger of snapshots vs live "
         "references), (3) the SHA-1 of every input object's arrays is unchanged. Repeatability: the same command in two "
         "OS processes with different PYTHONHASHSEED must print identical bytes. signature = (request-index sequence, "
         "dataset kind); non-trivial = the sequence contains a whole-array or multi-field request before a narrower one.")
-EXHAUSTIVE = "all request sequences up to length 3 over the 14-request menu"
+EXHAUSTIVE = "all request sequences up to length 3 over the 16-request menu"
 ASSUMPTIONS = ["the caller does not write into returned arrays"]
 REQUIRED_COUNTERS = ["histories", "calls_checked", "ledger_checks", "input_hash_checks", "repeat_pairs"]
 ANCHOR_FUNCS = ["Data.get_scores", "Data._get_score"]
@@ -40,7 +40,8 @@ def menu(kind):
          (["obs", "fcst"], 0, "no", 0), (["obs"], 0, "no", 0), (["obs", "fcst"], 1, "leadtime", 0),
          (["obs"], 1, "leadtime", 1), (["obs", "fcst"], 0, "time", 0), (["fcst"], 1, "location", 0),
          (["obs", "fcst"], 1, "all", None), (["fcst"], 1, "no", 0), (["obs"], 0, "time", 1),
-         (["obs", "fcst"], 0, "month", 0), (["obs"], 1, "all", None)]
+         (["obs", "fcst"], 0, "month", 0), (["obs"], 1, "all", None),
+         (["obs", "fcst"], 1, "leadtime", 1), (["obs"], 0, "time", 0)]
     if kind == "pit":
         m[11] = (["pit"], 0, "all", None)
         m[12] = (["obs", "pit"], 1, "no", 0)
